@@ -404,6 +404,8 @@ func runC06(p *Program, r *Report) {
 	c03closepayload(p, r, "C06.parse")
 	c06closereadYield(p, r, "C06.closeread")
 	c03fail(p, r, "C06.fail")
+	// "a Close frame with exactly that code and reason": the header codec's length table at 125 (seed C06-M)
+	shareAs(r, "C06.frame.len", "C06.frame.len", func(sub *Report) { c02bits(p, sub, "C06.frame") })
 	cAfterClose(p, r, "C06.after-close")
 }
 
@@ -1183,8 +1185,93 @@ func c06closed(p *Program, r *Report, rule string) {
 				if acquired && len(pa.Calls("mu.unlock")) == 0 {
 					return false, "error returned while still holding the lock"
 				}
+				// a caller that was refused (closed, context ended) never held the lock: releasing here would take
+				// the token of whoever holds it
+				if !acquired && len(pa.Calls("mu.unlock")) > 0 {
+					return false, "releases a lock this call did not acquire (the closed / context branch was taken, not the send on mu.ch)"
+				}
 				return true, ""
 			})
+	}
+	cMuPrimitive(p, r, "C06.recheck")
+}
+
+// cMuPrimitive decides the shape of the channel lock's other three operations: the lock rules (E2) treat them as
+// acquire / conditional acquire / release, which is only true while they are exactly that.
+func cMuPrimitive(p *Program, r *Report, rule string) {
+	chOf := func(e *Event) bool { return e.Chan != nil && strings.HasSuffix(e.Chan.Key(), "mu.ch") }
+	type opSpec struct {
+		fn   string
+		what string
+		chk  func(pa *Path) (bool, string)
+	}
+	chanOps := func(pa *Path) (sends, recvs, selSend, selRecv, selDefault int, other bool) {
+		for _, e := range pa.Events {
+			switch e.Kind {
+			case "send":
+				if chOf(e) {
+					sends++
+				} else {
+					other = true
+				}
+			case "recv":
+				if chOf(e) {
+					recvs++
+				} else {
+					other = true
+				}
+			case "select":
+				switch {
+				case e.Case == -1:
+					selDefault++
+				case chOf(e) && e.Dir == types.SendOnly:
+					selSend++
+				case chOf(e) && e.Dir == types.RecvOnly:
+					selRecv++
+				default:
+					other = true
+				}
+			case "call":
+				if !strings.HasPrefix(e.Callee, "builtin ") {
+					other = true
+				}
+			}
+		}
+		return
+	}
+	for _, sp := range []opSpec{
+		{"mu.forceLock", "forceLock is one blocking send on mu.ch and nothing else", func(pa *Path) (bool, string) {
+			s, rc, ss, sr, sd, o := chanOps(pa)
+			if s+ss != 1 || rc+sr+sd != 0 || o {
+				return false, fmt.Sprintf("sends=%d recvs=%d default=%d other=%v", s+ss, rc+sr, sd, o)
+			}
+			return true, ""
+		}},
+		{"mu.unlock", "unlock is one receive on mu.ch (blocking or not) and nothing else: it never sends, never blocks on anything else", func(pa *Path) (bool, string) {
+			s, rc, ss, sr, _, o := chanOps(pa)
+			if s+ss != 0 || rc+sr > 1 || o {
+				return false, fmt.Sprintf("sends=%d recvs=%d other=%v", s+ss, rc+sr, o)
+			}
+			return true, ""
+		}},
+		{"mu.tryLock", "tryLock returns true exactly when its non-blocking send on mu.ch was taken", func(pa *Path) (bool, string) {
+			if pa.End != "return" {
+				return true, ""
+			}
+			s, rc, ss, sr, _, o := chanOps(pa)
+			b, ok := avBool(pa.Ret[0])
+			if !ok || s != 0 || rc+sr != 0 || o || ss > 1 {
+				return false, fmt.Sprintf("returns %s, sends=%d recvs=%d other=%v", pa.Ret[0].Key(), s+ss, rc+sr, o)
+			}
+			if b != (ss == 1) {
+				return false, fmt.Sprintf("returns %v with %d send(s) taken", b, ss)
+			}
+			return true, ""
+		}},
+	} {
+		if fn := p.FuncOpt(sp.fn); fn != nil {
+			p.forAllPaths(r, rule, fn, "channel-lock primitive", Opts{}, sp.what, sp.chk)
+		}
 	}
 }
 
